@@ -6,9 +6,36 @@ HERE = os.path.dirname(os.path.dirname(os.path.abspath(__file__)))
 
 # id -> (technique, level text, level note, design ref)
 CHECKS = {
+ "C04": ("per-step Hoare monitor: reference drawing semantics on the implementation's own pre-state; zoo states x text classes, API + parser path",
+         "exploration: ~1M judged draw() calls per quick run over zoo states (pending wrap, IRM, DECAWM off, margins, wide/combining content, 1-column screens) and a 40-character class pool (singles, all ordered pairs, random strings)",
+         "reference semantics written from the statement; width/combining tables trusted; three corners the statement leaves open are accepted either way (DESIGN §6 C04)", "§6 C04"),
  "C05": ("per-step Hoare monitor (closed-form cursor oracle) over enumerated and generated states, API + parser path",
          "exploration: every movement call observed in ~2M executions per quick run is judged against the closed-form rule applied to the implementation's own pre-state; small geometries x regions x DECOM x cursors x P(size) enumerated completely",
          "closed-form rule transcribed from the statement; reachable states only; larger geometries sampled", "§6 C05"),
+ "C06": ("per-step Hoare monitor: reference row permutation on marker grids, enumerated regions/cursor rows/counts, API + parser path",
+         "exploration: every IND/LF/VT/FF/NEL/RI/IL/DL/DECSTBM call (and autowrap at the bottom margin) judged row by row against the reference permutation; all regions x cursor rows x P(lines) enumerated on screens up to 4x6",
+         "cell contents (written / never-written / materialised rows) are sampled, not enumerated; two DECSTBM corners accepted either way (DESIGN §6 C06)", "§6 C06"),
+ "C07": ("per-step Hoare monitor: expected erased set + cursor rendition, every cursor cell x selector x count, API + parser path",
+         "exploration: every ED/EL/ECH call judged cell by cell; all cursor cells incl. pending wrap x all selectors x P(columns) enumerated on small screens",
+         "contents/renditions sampled from the state zoo", "§6 C07"),
+ "C08": ("per-step Hoare monitor: independent SGR fold with computed xterm palette; exhaustive single codes / extended-colour forms / pairs",
+         "exploration with exhaustive sub-domains: every SGR code 0..=9999, every 38|48;5;n and boundary 38|48;2;r;g;b form, truncated forms and all ordered pairs of 70 codes from 6 attribute states, API + parser, each followed by drawing a character; plus random lists",
+         "palette computed from the xterm definition; triples and longer lists sampled", "§6 C08"),
+ "C12": ("per-step Hoare monitor: mode-set bookkeeping + side-effect table; exhaustive mode numbers",
+         "exploration with an exhaustive sub-domain: every mode number 0..=9999 x {private, ANSI} x {SM, RM} x {API, parser} from several zoo states, plus lists, repeats and interleavings with DECSC/DECRC, resize and drawing",
+         "DECCOLM corners the statement leaves open (rendition of the blanks, margins, repeated SM) accepted either way (DESIGN §6 C12)", "§6 C12"),
+ "C13": ("per-step Hoare monitor: list-splice reference on the visible row; all edit sequences up to a bound, each followed by a grow probe",
+         "exploration with an exhaustive sub-domain: all sequences (length <= 2 quick / 3 thorough, plus the probe) over {ICH n, DCH n, ECH n, EL 0/1/2, draw} on rows of 1..=5 columns from every cursor column and three row representations, each ending with a 2-column grow whose new cells must be blank; plus random states",
+         "longer sequences sampled", "§6 C13"),
+ "C14": ("per-step Hoare monitor over save^k . ops . restore^m histories: exact push/pop of the observable cursor state, stack untouched by everything else",
+         "exploration: ~1.4M judged calls per quick run; DECSC must push exactly the observable cursor state and DECRC pop it with the documented clamping and one-way mode re-enabling; every other call must leave the stack alone",
+         "the saved stack is observed through the public savepoints field; a saved pending-wrap column may come back as columns or columns-1", "§6 C14"),
+ "C16": ("per-step Hoare monitor: reference crop/extend + reappearance probe (grow after every judged resize)",
+         "exploration: all target sizes 1..=max+2 in both dimensions for screens <= 8x5 from zoo states (margins, DECOM, pending wrap, wide characters, hidden-cell producers), resize sequences <= 3, DECCOLM round trips; every judged state is grown by (+2,+2) and the new area must be blank",
+         "cursor only required to be inside the new bounds (statement does not say where)", "§6 C16"),
+ "C18": ("per-step Hoare monitor: closed-form HT/HTS/TBC; every width 1..=140 enumerated",
+         "exploration with an exhaustive sub-domain: default stops and HT from every column incl. pending wrap for every width 1..=140; random HTS/TBC sequences followed by an HT walk; width changes between setting and using a stop",
+         "stops at or beyond the right edge are unobservable until the screen grows and are not compared", "§6 C18"),
 }
 
 NOT_BUILT = {}
